@@ -1,0 +1,262 @@
+// Copyright ©2024 The Gonum Authors. All rights reserved.
+// Use of this source code is governed by a BSD-style
+// license that can be found in the LICENSE file.
+
+//go:build verif
+
+package mat
+
+import (
+	"fmt"
+	"math"
+	"runtime"
+	"sync"
+	"unsafe"
+)
+
+// This file is the workspace-pool sanitizer used by the runtime monitors in
+// /verif. It is compiled only with the verif build tag.
+//
+// Every get*Workspace/getFloat64s/getInts reports the buffer it hands out
+// and every put* reports the buffer it takes back. The registry checks the
+// pool protocol (each buffer is put at most once per get and only after a
+// get) and, when poisoning is enabled, fills buffers with recognisable NaNs
+// (0x5A.. bytes for ints) when they are handed out un-cleared and when they
+// are returned, so that a read of uninitialised workspace or a use after
+// put shows up as NaN in results.
+
+// Pool kinds.
+const (
+	verifPoolDense = iota
+	verifPoolSym
+	verifPoolTri
+	verifPoolVec
+	verifPoolFloats
+	verifPoolCDense
+	verifPoolInts
+	verifPoolKinds
+)
+
+var verifPoolKindNames = [verifPoolKinds]string{"Dense", "SymDense", "TriDense", "VecDense", "Float64s", "CDense", "Ints"}
+
+// VerifPoolStats is a snapshot of the pool sanitizer state.
+type VerifPoolStats struct {
+	Gets, Puts  [7]int64
+	Outstanding int      // buffers handed out and not yet returned
+	HighWater   int      // maximum of Outstanding since the last reset
+	Errors      []string // protocol violations observed (capped at 64)
+	NumErrors   int64
+}
+
+var verifPool struct {
+	mu         sync.Mutex
+	poison     bool
+	out        map[uintptr]verifPoolOut // base address -> buffers handed out
+	gets, puts [verifPoolKinds]int64
+	high       int
+	errs       []string
+	nerr       int64
+}
+
+// verifPoolOut describes a buffer that has been handed out. It keeps a
+// pointer to the buffer so that a workspace that is never returned cannot be
+// collected and have its address reused by a later, unrelated buffer.
+type verifPoolOut struct {
+	kind int
+	keep unsafe.Pointer
+}
+
+func init() { verifPool.out = make(map[uintptr]verifPoolOut) }
+
+// VerifPoolPoison enables or disables NaN poisoning of workspace buffers.
+func VerifPoolPoison(on bool) {
+	verifPool.mu.Lock()
+	verifPool.poison = on
+	verifPool.mu.Unlock()
+}
+
+// VerifPoolReset clears counters, errors and the high-water mark. Buffers
+// currently outstanding stay registered.
+func VerifPoolReset() {
+	verifPool.mu.Lock()
+	verifPool.gets = [verifPoolKinds]int64{}
+	verifPool.puts = [verifPoolKinds]int64{}
+	verifPool.high = len(verifPool.out)
+	verifPool.errs = nil
+	verifPool.nerr = 0
+	verifPool.mu.Unlock()
+}
+
+// VerifPoolSnapshot returns the current sanitizer state.
+func VerifPoolSnapshot() VerifPoolStats {
+	verifPool.mu.Lock()
+	defer verifPool.mu.Unlock()
+	s := VerifPoolStats{Outstanding: len(verifPool.out), HighWater: verifPool.high, NumErrors: verifPool.nerr}
+	copy(s.Gets[:], verifPool.gets[:])
+	copy(s.Puts[:], verifPool.puts[:])
+	s.Errors = append([]string(nil), verifPool.errs...)
+	return s
+}
+
+// VerifPoolKindName returns the name of pool kind k.
+func VerifPoolKindName(k int) string { return verifPoolKindNames[k] }
+
+// VerifPoisonNaN is the NaN written into poisoned float workspace.
+var VerifPoisonNaN = math.Float64frombits(0x7ff8f00dfeedbeef)
+
+// VerifIsPoison reports whether f is the workspace poison value.
+func VerifIsPoison(f float64) bool { return math.Float64bits(f) == 0x7ff8f00dfeedbeef }
+
+func verifPoolErr(format string, args ...interface{}) {
+	verifPool.nerr++
+	if len(verifPool.errs) < 64 {
+		var pcs [8]uintptr
+		n := runtime.Callers(3, pcs[:])
+		frames := runtime.CallersFrames(pcs[:n])
+		where := ""
+		for {
+			f, more := frames.Next()
+			where += " <- " + f.Function
+			if !more {
+				break
+			}
+		}
+		verifPool.errs = append(verifPool.errs, fmt.Sprintf(format, args...)+where)
+	}
+}
+
+func verifPoolGet(kind int, keep unsafe.Pointer) {
+	base := uintptr(keep)
+	verifPool.mu.Lock()
+	verifPool.gets[kind]++
+	if o, ok := verifPool.out[base]; ok {
+		verifPoolErr("pool %s handed out a buffer that is still outstanding (from pool %s): double put earlier", verifPoolKindNames[kind], verifPoolKindNames[o.kind])
+	}
+	verifPool.out[base] = verifPoolOut{kind, keep}
+	if len(verifPool.out) > verifPool.high {
+		verifPool.high = len(verifPool.out)
+	}
+	verifPool.mu.Unlock()
+}
+
+func verifPoolPut(kind int, base uintptr) bool {
+	verifPool.mu.Lock()
+	defer verifPool.mu.Unlock()
+	verifPool.puts[kind]++
+	o, ok := verifPool.out[base]
+	k := o.kind
+	switch {
+	case !ok:
+		verifPoolErr("put%s of a buffer that is not outstanding (double put, or put of a buffer not obtained from the pool)", verifPoolKindNames[kind])
+	case k != kind:
+		verifPoolErr("put%s of a buffer obtained from pool %s", verifPoolKindNames[kind], verifPoolKindNames[k])
+		delete(verifPool.out, base)
+	default:
+		delete(verifPool.out, base)
+	}
+	return verifPool.poison
+}
+
+func verifPoolGetF(kind int, data []float64, clear bool) {
+	full := data[:cap(data)]
+	if len(full) == 0 {
+		return
+	}
+	verifPoolGet(kind, unsafe.Pointer(&full[0]))
+	verifPool.mu.Lock()
+	p := verifPool.poison
+	verifPool.mu.Unlock()
+	if p {
+		if !clear {
+			for i := range data {
+				data[i] = VerifPoisonNaN
+			}
+		}
+		tail := full[len(data):]
+		for i := range tail {
+			tail[i] = VerifPoisonNaN
+		}
+	}
+}
+
+func verifPoolPutF(kind int, data []float64) {
+	full := data[:cap(data)]
+	if len(full) == 0 {
+		return
+	}
+	if verifPoolPut(kind, uintptr(unsafe.Pointer(&full[0]))) {
+		for i := range full {
+			full[i] = VerifPoisonNaN
+		}
+	}
+}
+
+func verifPoolGetC(data []complex128, clear bool) {
+	full := data[:cap(data)]
+	if len(full) == 0 {
+		return
+	}
+	verifPoolGet(verifPoolCDense, unsafe.Pointer(&full[0]))
+	verifPool.mu.Lock()
+	p := verifPool.poison
+	verifPool.mu.Unlock()
+	if p {
+		if !clear {
+			for i := range data {
+				data[i] = complex(VerifPoisonNaN, VerifPoisonNaN)
+			}
+		}
+		tail := full[len(data):]
+		for i := range tail {
+			tail[i] = complex(VerifPoisonNaN, VerifPoisonNaN)
+		}
+	}
+}
+
+func verifPoolPutC(data []complex128) {
+	full := data[:cap(data)]
+	if len(full) == 0 {
+		return
+	}
+	if verifPoolPut(verifPoolCDense, uintptr(unsafe.Pointer(&full[0]))) {
+		for i := range full {
+			full[i] = complex(VerifPoisonNaN, VerifPoisonNaN)
+		}
+	}
+}
+
+const verifPoisonInt = 0x5a5a5a5a5a5a5a5a
+
+func verifPoolGetI(data []int, clear bool) {
+	full := data[:cap(data)]
+	if len(full) == 0 {
+		return
+	}
+	verifPoolGet(verifPoolInts, unsafe.Pointer(&full[0]))
+	verifPool.mu.Lock()
+	p := verifPool.poison
+	verifPool.mu.Unlock()
+	if p {
+		if !clear {
+			for i := range data {
+				data[i] = verifPoisonInt
+			}
+		}
+		tail := full[len(data):]
+		for i := range tail {
+			tail[i] = verifPoisonInt
+		}
+	}
+}
+
+func verifPoolPutI(data []int) {
+	full := data[:cap(data)]
+	if len(full) == 0 {
+		return
+	}
+	if verifPoolPut(verifPoolInts, uintptr(unsafe.Pointer(&full[0]))) {
+		for i := range full {
+			full[i] = verifPoisonInt
+		}
+	}
+}
